@@ -62,9 +62,11 @@ class _Worker:
         self.extra_env = extra_env or {}
         self.proc = None
         self.calls = 0
+        self.history = []   # payloads executed by the current process incarnation, in order
         self.start()
 
     def start(self):
+        self.history = []
         p2c_r, p2c_w = os.pipe()
         c2p_r, c2p_w = os.pipe()
         env = dict(os.environ)
@@ -124,12 +126,18 @@ class _Worker:
             self.shutdown()
             self.calls = 1
             self.start()
+        self.history.append(payload)
         try:
             _send(self.wfd, payload)
         except OSError:
             res = None
         else:
             res = _recv(self.rfd, timeout)
+        if isinstance(res, dict) and res.get("violations"):
+            # lets the runner re-execute the task (or everything this process ran before it) if a violating case
+            # does not reproduce on its own
+            res["_payload"] = payload
+            res["_history"] = list(self.history)
         if res is None or (isinstance(res, str) and res == "timeout"):
             status = "timeout" if res == "timeout" else "abort"
             rc = None
